@@ -40,6 +40,14 @@ DropAt(s, i) == SubSeq(s, 1, i - 1) \o SubSeq(s, i + 1, Len(s))
 \* position of an index fragment in an array of length n: 1-based, 0 when outside
 Pos(i, n) == IF i >= 0 THEN (IF i < n THEN i + 1 ELSE 0) ELSE (IF -i <= n THEN n + i + 1 ELSE 0)
 
+\* what the descent fragment ".." of a path matches, as the JSONPath implementation slip uses (ojg) defines it: a container and
+\* everything inside it, at every depth; a value that is not a container is matched as a member of a container, not when the
+\* descent starts at it ("$.." of the document 5 matches nothing)
+RECURSIVE Subtree(_)
+Subtree(d) == LET RECURSIVE cat(_)
+                  cat(vs) == IF vs = <<>> THEN <<>>
+                             ELSE (IF Head(vs).k \in {"arr", "obj"} THEN Subtree(Head(vs)) ELSE <<Head(vs)>>) \o cat(Tail(vs))
+              IN IF d.k = "arr" THEN <<d>> \o cat(d.v) ELSE IF d.k = "obj" THEN <<d>> \o cat([i \in 1..Len(d.v) |-> d.v[i][2]]) ELSE <<>>
 \* ---- get / has ----------------------------------------------------------------------------------------------------
 \* all values the path matches, in document order (arrays by position, objects by key)
 RECURSIVE Matches(_, _)
@@ -48,6 +56,9 @@ Matches(d, p) ==
   ELSE LET f == Head(p)  rest == Tail(p) IN
     CASE f.t = "key" -> IF d.k = "obj" /\ HasKey(d, f.k) THEN Matches(ValOf(d, f.k), rest) ELSE <<>>
       [] f.t = "idx" -> IF d.k = "arr" /\ Pos(f.i, Len(d.v)) > 0 THEN Matches(d.v[Pos(f.i, Len(d.v))], rest) ELSE <<>>
+      [] f.t = "desc" -> LET RECURSIVE alld(_)
+                             alld(vs) == IF vs = <<>> THEN <<>> ELSE Matches(Head(vs), rest) \o alld(Tail(vs))
+                         IN alld(Subtree(d))
       [] f.t = "wild" -> LET RECURSIVE all(_)
                              all(vs) == IF vs = <<>> THEN <<>> ELSE Matches(Head(vs), rest) \o all(Tail(vs))
                          IN IF d.k = "arr" THEN all(d.v) ELSE IF d.k = "obj" THEN all([i \in 1..Len(d.v) |-> d.v[i][2]]) ELSE <<>>
@@ -59,6 +70,7 @@ WildOverObj(d, p) == IF p = <<>> THEN FALSE
                        CASE f.t = "key" -> d.k = "obj" /\ HasKey(d, f.k) /\ WildOverObj(ValOf(d, f.k), Tail(p))
                          [] f.t = "idx" -> d.k = "arr" /\ Pos(f.i, Len(d.v)) > 0 /\ WildOverObj(d.v[Pos(f.i, Len(d.v))], Tail(p))
                          [] f.t = "wild" -> d.k = "obj" \/ (d.k = "arr" /\ \E i \in 1..Len(d.v) : WildOverObj(d.v[i], Tail(p)))
+                         [] f.t = "desc" -> TRUE        \* the order in which a descent visits is not defined: the first match is open
 \* get: [st |-> "ok", v] the first match, [st |-> "none"] nothing there, [st |-> "open"]
 Get(d, p) == IF WildOverObj(d, p) THEN [st |-> "open"]
              ELSE IF Matches(d, p) = <<>> THEN [st |-> "none"] ELSE [st |-> "ok", v |-> Matches(d, p)[1]]
@@ -156,6 +168,12 @@ Docs == Scalars \cup Smalls
         \cup {O(<<<<"a", A(<<O(<<<<"b", A(<<I(1), I(2)>>)>>>>), I(3)>>)>>, <<"c d", O(<<<<"a", O(<<<<"b", S("deep")>>>>)>>>>)>>>>)}
 Frags == {[t |-> "key", k |-> k] : k \in {"a", "b", "c d"}} \cup {[t |-> "idx", i |-> i] : i \in {0, 1, 2, -1, -3}} \cup {[t |-> "wild"]}
 Paths == {<<f>> : f \in Frags} \cup {<<f, g>> : f, g \in Frags} \cup (IF Level = 1 THEN {} ELSE {<<f, g, h>> : f \in Frags, g \in {[t |-> "key", k |-> "b"], [t |-> "idx", i |-> 0], [t |-> "wild"]}, h \in Frags})
+\* paths with the descent fragment: alone, in front of a fragment, behind a key
+Desc == [t |-> "desc"]
+\* (a descent at the end of a path is left out: the JSONPath implementation's has and get disagree about a descent that ends
+\*  the path at a scalar or at an empty container, there is nothing for the model to side with)
+DescPaths == {<<Desc, f>> : f \in Frags}
+             \cup {<<[t |-> "key", k |-> k], Desc, f>> : k \in {"a", "b"}, f \in {[t |-> "key", k |-> "a"], [t |-> "key", k |-> "b"], [t |-> "idx", i |-> 0], [t |-> "idx", i |-> 1], [t |-> "wild"]}}
 Vals == {I(9), S("new"), Null, A(<<I(8), S("w")>>), O(<<<<"b", I(7)>>>>), B(TRUE)}
 VARIABLES doc, hist, start
 Op(o, p, v) == [op |-> o, p |-> p, v |-> v]
@@ -164,9 +182,13 @@ Next == /\ Len(hist) < MaxOps
         /\ \E p \in Paths :
              \/ /\ hist' = Append(hist, Op("get", p, Null)) /\ doc' = doc
              \/ /\ hist' = Append(hist, Op("has", p, Null)) /\ doc' = doc
+             \/ /\ hist' = Append(hist, Op("walk", p, Null)) /\ doc' = doc
              \/ \E v \in Vals : LET r == Set(doc, p, v) IN r.st = "ok" /\ doc' = r.d /\ hist' = Append(hist, Op("set", p, v))
              \/ LET r == Remove(doc, p) IN r.st = "ok" /\ doc' = r.d /\ hist' = Append(hist, Op("remove", p, Null))
         /\ UNCHANGED start
+\* has and walk (what is visited is what the path matches) over the paths with a descent
+NextDesc == /\ Len(hist) < MaxOps /\ UNCHANGED <<start, doc>>
+            /\ \E p \in DescPaths : \/ hist' = Append(hist, Op("has", p, Null)) \/ hist' = Append(hist, Op("walk", p, Null))
 Init == doc \in Docs /\ hist = <<>> /\ start = doc
 Emit == PrintT(ToJson([start |-> start, hist |-> hist']))
 EmitState == Len(hist) < MaxOps \/ PrintT(ToJson([start |-> start, hist |-> hist]))
